@@ -200,11 +200,12 @@ func (s *Server) DidChange(ctx context.Context, params *protocol.DidChangeTextDo
 		s.resolved.Delete(params.TextDocument.URI)
 		s.docMu.Unlock()
 		s.payeeTemplatesCache.Delete(params.TextDocument.URI)
-		if s.workspace != nil {
-			if path := uriToPath(params.TextDocument.URI); path != "" {
+		if path := uriToPath(params.TextDocument.URI); path != "" {
+			if s.workspace != nil {
 				s.workspace.UpdateFile(path, content)
-				s.loader.InvalidateFile(path)
 			}
+			// the loader's cache is used with and without a workspace
+			s.loader.InvalidateFile(path)
 		}
 		go s.publishDiagnostics(ctx, params.TextDocument.URI, content)
 	}
@@ -223,14 +224,14 @@ func (s *Server) DidClose(ctx context.Context, params *protocol.DidCloseTextDocu
 	s.docMu.Unlock()
 	s.payeeTemplatesCache.Delete(params.TextDocument.URI)
 	tokenCache.delete(params.TextDocument.URI)
-	if s.workspace != nil {
-		if path := uriToPath(params.TextDocument.URI); path != "" {
+	if path := uriToPath(params.TextDocument.URI); path != "" {
+		if s.workspace != nil {
 			// unsaved edits are discarded: the file on disk is the content again
 			if data, err := os.ReadFile(path); err == nil {
 				s.workspace.UpdateFile(path, string(data))
 			}
-			s.loader.InvalidateFile(path)
 		}
+		s.loader.InvalidateFile(path)
 	}
 	return nil
 }
@@ -238,15 +239,15 @@ func (s *Server) DidClose(ctx context.Context, params *protocol.DidCloseTextDocu
 func (s *Server) DidSave(ctx context.Context, params *protocol.DidSaveTextDocumentParams) error {
 	s.payeeTemplatesCache.Delete(params.TextDocument.URI)
 
-	if s.workspace != nil {
-		if path := uriToPath(params.TextDocument.URI); path != "" {
+	if path := uriToPath(params.TextDocument.URI); path != "" {
+		if s.workspace != nil {
 			if content, ok := s.GetDocument(params.TextDocument.URI); ok {
 				s.workspace.UpdateFile(path, content)
 			} else if data, err := os.ReadFile(path); err == nil {
 				s.workspace.UpdateFile(path, string(data))
 			}
-			s.loader.InvalidateFile(path)
 		}
+		s.loader.InvalidateFile(path)
 	}
 	return nil
 }
